@@ -302,7 +302,7 @@ func (rn *runner) versionSweep() {
 	for _, mn := range vals {
 		for _, mx := range vals {
 			for li, es := range lists {
-				if (mn != 0 || mx != 0) && li >= 2 {
+				if (mn != 0 || mx != 0) && li >= 1 {
 					continue // the extension list is only consulted for (0, 0)
 				}
 				terms := make([]string, len(es))
